@@ -103,7 +103,7 @@ PROPS = {
             "library points are read out through AffineX/AffineY and the base field's Bytes(), library elements are built through FromAffine / ScalarMul; these are not point encoders",
         ],
         "env": {"GOMAXPROCS": "2", "GOGC": "400"},
-        "quick": {"scale": 1, "shards": 8, "timeout_s": 600},
+        "quick": {"scale": 1, "shards": 8, "timeout_s": 1500},
         "thorough": {"scale": 10, "shards": 16, "timeout_s": 3600},
     },
     # temporary entry added by the C14 builder (lead: replace/adjust as needed)
@@ -176,7 +176,7 @@ PROPS = {
             "conversions between math/big and num.{Nat,NatPlus,Int} / curve scalars go through big-endian bytes and are guarded by round-trip checks; they are the subject of C17 / C14",
             "ElGamal: the library's curve arithmetic evaluates g^e P^f for the model's exponents (curve arithmetic is C14); group orders are typed in from the standards",
         ],
-        "quick": {"scale": 1, "shards": 16, "timeout_s": 600},
+        "quick": {"scale": 1, "shards": 16, "timeout_s": 1200},
         "thorough": {"scale": 12, "shards": 16, "timeout_s": 3600},
     },
     # temporary entry added by the C17 builder (lead: replace/adjust as needed)
@@ -208,7 +208,7 @@ PROPS = {
         "pkg": "c18",
         "level": "exploration",
         "rule": ("schemes: hashcom, pedersencom over k256 / p256 / edwards25519 prime subgroup / BLS12-381 G1 / pallas, intcom "
-                 "(ring-Pedersen over moduli built from openssl fixture primes, 1024-2048 bit, safe / Blum / ordinary), indcpacom "
+                 "(ring-Pedersen over moduli built from openssl fixture primes, 1024-2048 bit, safe / Blum / ordinary, plus 256-bit keys from the library's own SampleCommitmentKey / SampleTrapdoorKey), indcpacom "
                  "over Paillier (fixture primes; public-key, secret-key and plain view) and ElGamal (k256, ed25519, p256; public / "
                  "secret view). Keys: sampled, ExtractCommitmentKey from a transcript (given or drawn base point), explicit (g,h), "
                  "trapdoor (sampled / NewTrapdoorKey with drawn g and lambda) and Export(). Per case: key kind, message class "
